@@ -899,14 +899,16 @@ impl TwoFloat {
         // digits, so no matter what strategy we choose here, the convergence
         // needs to go out to x = log(1.5) = 0.22. We have it work for until a
         // quarter, because that's a nice round power of two.
-        assert!(self.hi().abs() <= 0.25);
-
         // The idea is to use the identity
         //
         //   expm1(x) = expm1(x0) + exp(x0) * expm1(x - x0)
         //
         // to reduce the expansion order.
         let n = libm::round(128.0 * self.hi());
+        // The reduced argument may exceed a quarter by an ulp when the low word of the
+        // original argument pushes it outwards; what matters is that the table index
+        // stays in range.
+        assert!(libm::fabs(n) <= 32.0);
         let x0 = n / 128.0;
         let y = self - x0;
 
